@@ -116,7 +116,7 @@ def run_shard(desc, R, tier):
                     eval_point({'kind': 'xcorr', 'x': x, 'y': None, 'maxlags': ml, 'norm': norm, 'aslist': False}, R)
     elif kind == 'pcm':
         n = desc[1]
-        recs = A.pcm(n)
+        recs = A.pcm(n) + A.pcm64(n)
         for nx, x in recs:
             for ml in [0, 1, n // 2, n - 1, None]:
                 for norm in NORMS + ['coeff']:
